@@ -1055,7 +1055,8 @@ class InternalGroupedDataFrame:
                     for pivot_value in all_stats.pivot_values
                     for stat in get_pivoted_stats(
                         all_stats.groups[group_key][pivot_value],
-                        pivot_value
+                        pivot_value,
+                        all_stats.pivot_col is not None
                     )
                 ]
             ))
@@ -1170,9 +1171,11 @@ class GroupedStats:
         return self
 
 
-def get_pivoted_stats(stats, pivot_value):
-    if pivot_value is None:
+def get_pivoted_stats(stats, pivot_value, pivoted=True):
+    # None is a legal pivot value (the rows whose pivot column is null):
+    # whether there is a pivot at all is not read off the value
+    if not pivoted:
         return stats
     if len(stats) == 1:
-        return [stats[0].alias(pivot_value)]
+        return [stats[0].alias(str(pivot_value))]
     return [stat.alias(f"{pivot_value}_{stat}") for stat in stats]
